@@ -116,3 +116,43 @@ def o18_1(tier):
                     ctx.ensure(ctx.close(Fc[r][c], al * Fa[r][c] + be * Fb[r][c]), f"closed form of entry ({r},{c}) is linear in (pressures, tensions)")
         return h
     return [("cells=2,edges=3", mk(2, 3)), ("cells=1,edges=0", mk(1, 0)), ("isotropic,cells=3,edges=2", mk_iso(3, 2)), ("linear,cells=2,edges=1", mk_lin(2, 1))] + ([("linear,cells=2,edges=2", mk_lin(2, 2))] if tier != "quick" else [])
+
+
+@obligation("O18.2", ["C18", "C10"], [S + ":get_big_edges_df", S + ":get_cells_df"],
+            "the per-interface and per-cell tables feeding the stress tensor are rebuilt from the frame's CURRENT tensions and pressures at every call "
+            "(no state carried from an earlier call), one row per interface / cell in dictionary order", tier="Pn")
+def o18_2(tier):
+    def h(ctx):
+        from .c02_matrix import build
+        from .c08_frames import column
+        m, fr, cycles, info, _ = build(ctx, "tri_star", 1)
+        np_ = ctx.module("numpy") if ctx.mode != "sym" else None
+
+        def vec(it, a, k):
+            beid = ctx.get(a[0], "big_edge_id")
+            val = (ctx.real(f"w{beid}x"), ctx.real(f"w{beid}y"))
+            if np_ is not None:
+                return np_.array(val)
+            from fvc import npmodel
+            return npmodel.NDArr(list(val), (2,))
+        ctx.stub("forsys.edge:BigEdge.get_vector_from_vertex", vec, "callee contract O02.3a/b (only its value is tabulated here)")
+        if ctx.mode != "sym":
+            ctx.apply_stubs = True
+            ctx.stub("forsys.edge:BigEdge.get_vector_from_vertex", vec)
+        st = ctx.module(S)
+        bes = ctx.list_of(ctx.get(fr, "big_edges"))
+        for round_ in (1, 2):
+            tens, pres = {}, {}
+            for beid, be in bes:
+                tens[beid] = ctx.real(f"T{round_}_{beid}")
+                ctx.set(be, "tension", tens[beid])
+            for cid in cycles:
+                pres[cid] = ctx.real(f"P{round_}_{cid}")
+                ctx.set(m.c[cid], "pressure", pres[cid])
+            df = ctx.call(ctx.get(st, "get_big_edges_df"), fr)
+            ctx.ensure([int(x) for x in column(ctx, df, "ids")] == [b for b, _ in bes], f"call {round_}: one row per interface in dictionary order")
+            ctx.ensure(ctx.And(*[ctx.close(a, tens[b]) for a, (b, _) in zip(column(ctx, df, "stress"), bes)]), f"call {round_}: the CURRENT tension of every interface")
+            dc = ctx.call(ctx.get(st, "get_cells_df"), fr)
+            ctx.ensure([int(x) for x in column(ctx, dc, "ids")] == list(cycles), f"call {round_}: one row per cell")
+            ctx.ensure(ctx.And(*[ctx.close(a, pres[c]) for a, c in zip(column(ctx, dc, "pressure"), cycles)]), f"call {round_}: the CURRENT pressure of every cell")
+    return [("tri_star,two-calls", h)]
